@@ -133,6 +133,8 @@ fn named_inputs_never_panic() {
         "\\endlinechar=-1 \nA^^\nB", "A^^", "A^^\n", "^^", "^^4", "^^4\n", "^^é", "^^M^^", "\\endlinechar=-1 \n^^4", "\\endlinechar=300 \n^^", "\\^^", "\\a^^\n", "\\endlinechar=-1 \n\\^^", "\\endlinechar=-1 \n^^^", "^^^^", "^^\u{7f}",
         // the OFFENDING token itself is non-ASCII (the error is rendered with that token highlighted)
         "\\count 0=é", "\\catcode`é=é", "\\ifnum é", "\\dimen0=é", "\\skip0=1pt plus é", "\\def\\a#é{}", "\\countdef é", "é\\count0=日本", "\\count0=\u{301}", "\\count0=1é\\count0=é", "\\read 3 to é", "\\let é", "\\the é", "\\advance é",
+        // a control sequence with an EMPTY name (a backslash at the very end of a line that gets no end-of-line character)
+        "\\endlinechar=-1\n\\count 1=`\\\n\\the\\count 1", "\\count1=`\\", "\\endlinechar=-1\n\\\n\\relax", "\\endlinechar=-1\n\\def\\\n{x}\\\n", "\\endlinechar=-1\n\\let\\\n=\\relax\\the\\\n",
         // allocation: an alias of an array, arrays of length 0, elements far out of range, \\newInt inside a group
         "\\newIntArray \\a 3 \\let\\b=\\a \\b 0=1", "\\newIntArray \\a 0 \\a 0 = 1", "\\newIntArray \\a -3 \\a 0 = 1", "\\newIntArray \\a 3 \\a 3=1", "\\newIntArray \\a 3 \\a 2147483647=1", "\\newIntArray \\a 3 \\a -1=1",
         "{\\newInt\\n \\n=3 }\\n=4 \\the\\n", "\\newIntArray \\a 2 {\\newIntArray \\a 5 \\a 4=1 }\\a 4=1", "\\newInt\\n \\let\\m=\\n \\m=3 \\the\\n", "\\newIntArray 3", "\\newIntArray \\a", "\\newIntArray \\a \\a",
